@@ -539,3 +539,34 @@ def merge_dispatch(tree):
         ast.fix_missing_locations(fn)
         done.append((g, names))
     return done
+
+
+def plain_local_assignments(tree):
+    """`x: T = v` inside a function or at module level is `x = v` (the annotation has no run-time effect there; class
+    bodies are left alone -- annotated names are the fields of NamedTuples / dataclasses): the walker's
+    treatment of fresh containers, folded loops and record fields then applies to annotated code as well"""
+    class _T(ast.NodeTransformer):
+        def __init__(self):
+            self.depth = 1          # module level counts: `TABLE: List[str] = [...]` is `TABLE = [...]`
+
+        def visit_FunctionDef(self, node):
+            self.depth += 1
+            self.generic_visit(node)
+            self.depth -= 1
+            return node
+        visit_AsyncFunctionDef = visit_FunctionDef
+
+        def visit_ClassDef(self, node):
+            d, self.depth = self.depth, 0
+            self.generic_visit(node)
+            self.depth = d
+            return node
+
+        def visit_AnnAssign(self, node):
+            if self.depth and node.value is not None and isinstance(node.target, (ast.Name, ast.Attribute, ast.Subscript)):
+                new = ast.Assign(targets=[node.target], value=node.value)
+                return ast.copy_location(new, node)
+            return node
+    _T().visit(tree)
+    ast.fix_missing_locations(tree)
+    return tree
